@@ -16,6 +16,7 @@ import GherkinVerif.Lemmas.LookAhead
 import GherkinVerif.Lemmas.Bisim
 import GherkinVerif.Gen.ParserTable
 import GherkinVerif.Gen.Grammar
+import GherkinVerif.KDecide
 namespace GV.Lemmas
 
 open GV.Spec
@@ -62,7 +63,7 @@ theorem accept_iff_sentence_gen (T : Table) (G : Grammar) (start : RuleType) (fu
 
 /-- the kernel-evaluated certificate -/
 theorem c02Check_gen : c02Check Gen.parserTable Gen.grammar .GherkinDocument 100000 = true := by
-  decide +kernel
+  kdecide
 
 theorem accept_iff_sentence (ks : List Kind) (h : Kind.EOF ∉ ks) :
     acceptsAbs Gen.parserTable ks = Spec.Sentence Gen.grammar .GherkinDocument ks :=
